@@ -237,6 +237,44 @@ Proof.
   congruence.
 Qed.
 
+Lemma NoDup_nodupb {A} `{EqDec A} (l : list A) : NoDup l -> nodupb l = true.
+Proof.
+  induction l as [|x l IH]; simpl; intros Hnd; [reflexivity|].
+  inversion Hnd as [|? ? Hx Hl]; subst. rewrite (IH Hl), andb_true_r.
+  apply negb_true_iff. destruct (existsb (fun y => eqb x y) l) eqn:E; [|reflexivity].
+  apply existsb_exists in E. destruct E as (y & Hy & Hxy). assert (x = y) as Heq by (apply Prelude.eqb_true_iff; exact Hxy). rewrite <- Heq in Hy. contradiction.
+Qed.
+
+(** keys of a store checked sorted are pairwise distinct (boolean form) *)
+Lemma sortedb_keys_nodupb {V} (m : list (Z * V)) : sortedb lt1 m = true -> nodupb (map fst m) = true.
+Proof.
+  intros Hs. apply NoDup_nodupb. apply (sorted_keys_NoDup lt1 lt1_irrefl).
+  apply (sortedb_sorted lt1 lt1_trans). exact Hs.
+Qed.
+
+Lemma key_ok_map {V} (key : V -> Z) (m : list (Z * V)) :
+  forallb (fun e => fst e =? key (snd e)) m = true -> map key (map snd m) = map fst m.
+Proof.
+  induction m as [|e m IH]; simpl; intros Hk; [reflexivity|].
+  apply andb_true_iff in Hk. destruct Hk as [He Hm]. rewrite (IH Hm). f_equal. lia.
+Qed.
+
+Lemma key_ok_Forall {V} (key : V -> Z) (m : list (Z * V)) :
+  forallb (fun e => fst e =? key (snd e)) m = true -> Forall (fun e => key (snd e) = fst e) m.
+Proof.
+  intros Hk. apply Forall_forall. intros e He. rewrite forallb_forall in Hk. specialize (Hk e He). lia.
+Qed.
+
+(** a store checked sorted whose keys are derived from the values is rebuilt by re-inserting the values *)
+Lemma okeyed_roundtrip1 {V} (key : V -> Z) (m : list (Z * V)) :
+  sortedb lt1 m = true -> forallb (fun e => fst e =? key (snd e)) m = true ->
+  okeyed lt1 key (map snd m) = m.
+Proof.
+  intros Hs Hk. apply (okeyed_sorted lt1 lt1_irrefl lt1_asym).
+  - apply (sortedb_sorted lt1 lt1_trans). exact Hs.
+  - apply key_ok_Forall. exact Hk.
+Qed.
+
 (** equality of two lists up to order, decided by mutual removal *)
 Fixpoint remove1 {A} `{EqDec A} (x : A) (l : list A) : option (list A) :=
   match l with
